@@ -232,12 +232,46 @@ func c08WritePoints(e *Env, s *Sched) {
 	w := s.Worker
 	bad, path := ir.Bypass(nil, w.Blocks[0], ir.PathQuery{
 		Stop: func(in ssa.Instruction) bool {
-			sd, ok := in.(*ssa.Send)
-			return ok && sameNode(sd.X, s.WorkerNode)
+			if sd, ok := in.(*ssa.Send); ok && sameNode(sd.X, s.WorkerNode) {
+				return true
+			}
+			// a reporting helper with several call sites (`exec.report(node)`): it sends
+			// its node parameter on every path on which the channel is not nil
+			if c, ok := in.(*ssa.Call); ok {
+				if k, isRep := e.reporterParam(c.Call.StaticCallee()); isRep && k < len(c.Call.Args) && sameNode(c.Call.Args[k], s.WorkerNode) {
+					return true
+				}
+			}
+			return false
 		},
-		SkipEdge: func(from *ssa.BasicBlock, idx int) bool { return doneNilEdge(e, from, idx) },
-		Descend:  func(g *ssa.Function) bool { return s.inWorker(g) },
-		Bad:      ir.IsReturn,
+		SkipEdge: func(from *ssa.BasicBlock, idx int) bool {
+			if doneNilEdge(e, from, idx) {
+				return true
+			}
+			// `if r.execute(node) { return }` where execute answers true only after it has
+			// reported the node itself: that edge is taken after a send
+			i, ok := from.Instrs[len(from.Instrs)-1].(*ssa.If)
+			if !ok {
+				return false
+			}
+			l := ir.Normalize(ir.Lit{Cond: i.Cond, Pol: idx == 0, If: i})
+			if l.Kind != "val" || !l.Pol {
+				return false
+			}
+			c, isC := ir.Resolve(l.V).(*ssa.Call)
+			if !isC || c.Call.StaticCallee() == nil || !e.P.Funcs[c.Call.StaticCallee()] {
+				return false
+			}
+			h := c.Call.StaticCallee()
+			for k, a := range c.Call.Args {
+				if k < len(h.Params) && sameNode(a, s.WorkerNode) && e.trueOnlyAfterSend(h, h.Params[k]) {
+					return true
+				}
+			}
+			return false
+		},
+		Descend: func(g *ssa.Function) bool { return s.inWorker(g) },
+		Bad:     ir.IsReturn,
 	})
 	var facts []string
 	if bad != nil {
@@ -430,4 +464,84 @@ func c08Latest(e *Env) {
 		"a run whose process died is reported as still running (the persisted `running` is returned uncorrected)")
 
 	cCorrectTable(e, "C08.correct-table")
+}
+
+// reporterParam: g is a small function of the repository that sends one of its
+// parameters on a channel on every path to its return, the paths on which that
+// channel is nil excepted; returns the parameter's index.
+func (e *Env) reporterParam(g *ssa.Function) (int, bool) {
+	if g == nil || !e.P.Funcs[g] || g.Blocks == nil || len(g.Blocks) > 6 {
+		return 0, false
+	}
+	for k, p := range g.Params {
+		sends := false
+		for _, b := range g.Blocks {
+			for _, in := range b.Instrs {
+				if sd, ok := in.(*ssa.Send); ok && ir.Resolve(sd.X) == ssa.Value(p) {
+					sends = true
+				}
+			}
+		}
+		if !sends {
+			continue
+		}
+		bad, _ := ir.Bypass(nil, g.Blocks[0], ir.PathQuery{
+			Stop: func(in ssa.Instruction) bool {
+				sd, ok := in.(*ssa.Send)
+				return ok && ir.Resolve(sd.X) == ssa.Value(p)
+			},
+			SkipEdge: func(from *ssa.BasicBlock, idx int) bool {
+				i, ok := from.Instrs[len(from.Instrs)-1].(*ssa.If)
+				if !ok {
+					return false
+				}
+				l := ir.Normalize(ir.Lit{Cond: i.Cond, Pol: idx == 0, If: i})
+				if l.Kind != "cmp" || l.Op != token.EQL || !ir.IsNilConst(l.Y) {
+					return false
+				}
+				_, isCh := l.X.Type().Underlying().(*types.Chan)
+				return isCh
+			},
+			Bad: ir.IsReturn,
+		})
+		if bad == nil {
+			return k, true
+		}
+	}
+	return 0, false
+}
+
+// trueOnlyAfterSend: the boolean function h answers something other than the constant
+// false only on paths on which it has sent its parameter p on a channel (or handed it
+// to a reporting helper).
+func (e *Env) trueOnlyAfterSend(h *ssa.Function, p *ssa.Parameter) bool {
+	if h.Blocks == nil || h.Signature.Results().Len() != 1 || h.Signature.Results().At(0).Type().String() != "bool" {
+		return false
+	}
+	bad, _ := ir.Bypass(nil, h.Blocks[0], ir.PathQuery{
+		Stop: func(in ssa.Instruction) bool {
+			if sd, ok := in.(*ssa.Send); ok && ir.Resolve(sd.X) == ssa.Value(p) {
+				return true
+			}
+			if c, ok := in.(*ssa.Call); ok {
+				if k, isRep := e.reporterParam(c.Call.StaticCallee()); isRep && k < len(c.Call.Args) && ir.Resolve(c.Call.Args[k]) == ssa.Value(p) {
+					return true
+				}
+			}
+			return false
+		},
+		Bad: func(in ssa.Instruction) bool {
+			rt, ok := in.(*ssa.Return)
+			if !ok {
+				return false
+			}
+			for _, v := range RetVals(rt, 0) {
+				if cb, isC := ir.ConstBool(ir.Resolve(v)); !isC || cb {
+					return true
+				}
+			}
+			return false
+		},
+	})
+	return bad == nil
 }
